@@ -13,7 +13,7 @@ from lekkersim.pin import Pin  # noqa: E402
 
 NSOL = 4
 HELPERS = ["put", "putpin", "update_defaults", "set_param_default", "add_param", "monitor",
-           "raise_pins", "solve", "connect", "pin_put", "connect_all"]
+           "raise_pins", "solve", "connect", "pin_put", "connect_all", "struct_raise_pins", "solver_put_raise"]
 
 
 class ProgExc(Exception):
@@ -121,6 +121,23 @@ class Runner:
         elif name == "pin_put":
             st = uwg(tag).put()
             Pin(f"pp{tag}").put(st.pin[f"a{tag}"])
+        elif name == "struct_raise_pins":
+            # Structure.raise_pins on a placed model: the pins go to the ACTIVE solver
+            st = uwg(tag).put()
+            st.raise_pins()
+        elif name == "solver_put_raise":
+            # ... and on a placed SUB-SOLVER (built outside any with-block of the program): still the active solver,
+            # never the solver the structure wraps
+            sub = lk.Solver(name=f"sub{tag}")
+            wst = lk.Structure(model=uwg(tag))
+            sub.add_structure(wst)
+            sub.map_pins({f"sa{tag}": wst.pin[f"a{tag}"], f"sb{tag}": wst.pin[f"b{tag}"]})
+            snap = lambda: (len(sub.structures), tuple(sorted((p.name, id(t[0])) for p, t in sub.pin_mapping.items())))
+            before_sub = snap()
+            st = sub.put()
+            st.raise_pins()
+            if snap() != before_sub or not {f"sa{tag}", f"sb{tag}"} <= {p.name for p in lk.sol_list[-1].pin_mapping}:
+                self.misdirected = True     # the helper acted on the wrapped sub-solver instead of the active solver
         elif name == "connect_all":
             a = uwg(tag).expand_mode(["te", "tm"]).put()
             b = uwg(f"{tag}x").expand_mode(["te", "tm"]).put()
@@ -138,6 +155,9 @@ class Runner:
                                  else self.sols.index(lk.sol_list[-1])))
             else:
                 self.log.append((k, 98))
+        elif getattr(self, "misdirected", False):
+            self.misdirected = False
+            self.log.append((k, 97))
         else:
             self.log.append((k, changed[0] if len(changed) == 1 else 90 + len(changed)))
 
@@ -175,15 +195,20 @@ class StackStream(Stream):
         lk.sol_list[:] = [lk.Solver()]     # a fresh default solver per case (else it grows without bound)
         r = Runner()
         exc = False
+        crashed = False
         try:
             r.run(d["prog"])
         except ProgExc:
             exc = True
+        except Exception:
+            crashed = True          # the library itself raised (e.g. pop from an empty stack): reported as a difference
         finally:
             after = list(lk.sol_list)
             lk.sol_list[:] = saved        # never let a defect leak into the next case
         ids = {id(s): i for i, s in enumerate(r.sols)}
         stack_after = [ids.get(id(s), 77) for s in after[len(r.base) - 1:]]
+        if crashed:
+            stack_after = stack_after + [99]
         return ("{| sk_prog := %s; sk_init := [0%%nat]; sk_obs_exc := %s; sk_obs_stack := %s; sk_obs_log := %s |}"
                 % (prog_lit(d["prog"]), "true" if exc else "false", clist(cnat(i) for i in stack_after),
                    clist(f"({cnat(h)}, {cnat(t)})" for h, t in r.log)))
